@@ -162,10 +162,14 @@ func (r *Run) Thorough() bool { return r.Tier == "thorough" }
 
 // Pick returns q in the quick tier and t in the thorough tier.
 func (r *Run) Pick(q, t int) int {
+	v := q
 	if r.Thorough() {
-		return t
+		v = t
 	}
-	return q
+	if SideRace() && v > 3 {
+		v /= 3 // the race build runs several times slower
+	}
+	return v
 }
 
 // Rand returns a PRNG that is a function of (seed, property, tier, stream).
@@ -324,6 +328,9 @@ func PanicClass(v any) string {
 // Finish writes evidence and the verdict file and exits with the interface's
 // exit code: 0 held / only known findings, 1 violation, 2 inconclusive.
 func (r *Run) Finish() {
+	if SideRace() {
+		r.reportRaces()
+	}
 	r.mu.Lock()
 	defer r.mu.Unlock()
 	wall := time.Since(r.start).Seconds()
@@ -386,7 +393,7 @@ func (r *Run) Finish() {
 	status := "HELD"
 	if len(vs) > 0 {
 		code, status = 1, "VIOLATED"
-	} else if len(r.inconcl) > 0 || r.evals == 0 || (len(r.distinct) < 2 && r.replayKey == "") {
+	} else if len(r.inconcl) > 0 || r.evals == 0 || (len(r.distinct) < 2 && r.replayKey == "" && !SideRace()) {
 		code, status = 2, "INCONCLUSIVE"
 		for _, s := range r.inconcl {
 			fmt.Fprintf(&out, "INCONCLUSIVE property=%s %s\n", r.ID, oneLine(s))
